@@ -131,11 +131,249 @@ fn tracker_probe(path: &str) {
   });
 }
 
+fn checkers_probe() {
+  use pie::task::{ErrEqualsChecker, OkEqualsChecker, ResultChecker};
+  use pie::OutputChecker;
+  type O = Result<u8, u8>;
+  let mut outs: Vec<(String, O)> = Vec::new();
+  for v in 0..3u8 { outs.push((format!("O{}", v), Ok(v))); }
+  for v in 0..3u8 { outs.push((format!("E{}", v), Err(v))); }
+  println!("C 0");
+  for (n1, o1) in &outs {
+    for (n2, o2) in &outs {
+      let r0 = <EqualsChecker as OutputChecker<O>>::check(&EqualsChecker, o1, &<EqualsChecker as OutputChecker<O>>::stamp(&EqualsChecker, o2)).is_some();
+      let r1 = OkEqualsChecker.check(o1, &<OkEqualsChecker as OutputChecker<O>>::stamp(&OkEqualsChecker, o2)).is_some();
+      let r2 = ErrEqualsChecker.check(o1, &<ErrEqualsChecker as OutputChecker<O>>::stamp(&ErrEqualsChecker, o2)).is_some();
+      let r3 = ResultChecker.check(o1, &<ResultChecker as OutputChecker<O>>::stamp(&ResultChecker, o2)).is_some();
+      let r4 = <AlwaysConsistent as OutputChecker<O>>::check(&AlwaysConsistent, o1, &<AlwaysConsistent as OutputChecker<O>>::stamp(&AlwaysConsistent, o2)).is_some();
+      println!("k {} {} {}{}{}{}{}", n1, n2, b(r0), b(r1), b(r2), b(r3), b(r4));
+    }
+  }
+  // EqualsChecker / AlwaysConsistent on a non-Result output type
+  for a in 0..4i64 {
+    for c in 0..4i64 {
+      let r0 = EqualsChecker.check(&a, &<EqualsChecker as OutputChecker<i64>>::stamp(&EqualsChecker, &c)).is_some();
+      let r4 = <AlwaysConsistent as OutputChecker<i64>>::check(&AlwaysConsistent, &a, &<AlwaysConsistent as OutputChecker<i64>>::stamp(&AlwaysConsistent, &c)).is_some();
+      println!("p {} {} {}{}", a, c, b(r0), b(r4));
+    }
+  }
+}
+
 fn main() {
   silence_panics();
   let args: Vec<String> = std::env::args().collect();
   match args[1].as_str() {
     "tracker" => tracker_probe(&args[2]),
+    "checkers" => checkers_probe(),
+    "map" => mapprobe::run(&args[2]),
+    "keys" => keyprobe::run(&args[2]),
     x => panic!("unknown probe {}", x),
+  }
+}
+
+// ------------------------------------------------------------------ map resource / TypeToAnyMap probe (C14)
+mod mapprobe {
+  use std::collections::hash_map::Entry;
+  use std::collections::HashMap;
+  use std::io::Write as _;
+  use pie::resource::map::{GetGlobalMap, MapEqualsChecker, MapKey};
+  use pie::{Pie, Resource, ResourceChecker, ResourceState};
+  use verif_harness::dsl::Toks;
+  use verif_harness::for_each_case;
+
+  macro_rules! keytype { ($n:ident) => {
+    #[derive(Clone, PartialEq, Eq, Hash, Debug)] pub struct $n(pub u32);
+    impl MapKey for $n { type Value = i64; }
+    impl From<u32> for $n { fn from(v: u32) -> Self { $n(v) } }
+    impl Num for $n { fn num(&self) -> u32 { self.0 } }
+  } }
+  pub trait Num { fn num(&self) -> u32; }
+  keytype!(K1); keytype!(K2); keytype!(K3);
+
+  pub trait StateTy: 'static { fn show(&self) -> String; fn make(v: i64) -> Self; }
+  impl<K: MapKey<Value = i64> + From<u32> + Num> StateTy for HashMap<K, i64> {
+    fn show(&self) -> String { let mut v: Vec<(u32, i64)> = self.iter().map(|(k, v)| (k.num(), *v)).collect(); v.sort(); v.iter().map(|(k, v)| format!("{}={}", k, v)).collect::<Vec<_>>().join(",") }
+    fn make(v: i64) -> Self { let mut m = HashMap::new(); m.insert(K::from(0), v); m }
+  }
+  #[derive(Default)] pub struct S11(pub Option<i64>);
+  #[derive(Default)] pub struct S12(pub Option<i64>);
+  impl StateTy for S11 { fn show(&self) -> String { self.0.map(|v| format!("0={}", v)).unwrap_or_default() } fn make(v: i64) -> Self { S11(Some(v)) } }
+  impl StateTy for S12 { fn show(&self) -> String { self.0.map(|v| format!("0={}", v)).unwrap_or_default() } fn make(v: i64) -> Self { S12(Some(v)) } }
+
+  fn get<R: Resource, S: StateTy>(pie: &Pie<()>) -> String {
+    match pie.resource_state::<R>().get::<S>() { Some(s) => format!("Some[{}]", s.show()), None => "None".into() }
+  }
+  fn set<R: Resource, S: StateTy>(pie: &mut Pie<()>, v: i64) { pie.resource_state_mut::<R>().set::<S>(S::make(v)); }
+  fn default<R: Resource, S: StateTy + Default>(pie: &mut Pie<()>) -> String { format!("[{}]", pie.resource_state_mut::<R>().get_or_set_default::<S>().show()) }
+
+  macro_rules! by_state { ($s:expr, $f:ident, $r:ty, $($a:expr),*) => { match $s {
+    1001 => $f::<$r, HashMap<K1, i64>>($($a),*), 1002 => $f::<$r, HashMap<K2, i64>>($($a),*), 1003 => $f::<$r, HashMap<K3, i64>>($($a),*),
+    11 => $f::<$r, S11>($($a),*), _ => $f::<$r, S12>($($a),*) } } }
+  macro_rules! by_res { ($r:expr, $s:expr, $f:ident, $($a:expr),*) => { match $r {
+    1 => by_state!($s, $f, K1, $($a),*), 2 => by_state!($s, $f, K2, $($a),*), _ => by_state!($s, $f, K3, $($a),*) } } }
+
+  fn o(v: Option<i64>) -> String { match v { Some(x) => format!("Some({})", x), None => "None".into() } }
+
+  fn read<K: MapKey<Value = i64> + From<u32>>(pie: &mut Pie<()>, k: u32) -> Option<i64> {
+    let key = K::from(k);
+    key.read(pie.resource_state_mut::<K>()).unwrap().copied()
+  }
+  fn insert<K: MapKey<Value = i64> + From<u32> + Clone>(pie: &mut Pie<()>, k: u32, v: i64) {
+    let key = K::from(k);
+    let mut w = key.write(pie.resource_state_mut::<K>()).unwrap();
+    w.insert(v);
+  }
+  fn remove<K: MapKey<Value = i64> + From<u32> + Clone>(pie: &mut Pie<()>, k: u32) {
+    let key = K::from(k);
+    let mut w = key.write(pie.resource_state_mut::<K>()).unwrap();
+    if let Entry::Occupied(e) = w.entry() { e.remove(); }
+  }
+  fn direct<K: MapKey<Value = i64> + From<u32>>(pie: &mut Pie<()>, k: u32, v: i64) {
+    pie.resource_state_mut::<K>().get_global_map_mut().insert(K::from(k), v);
+  }
+  fn stamps<K: MapKey<Value = i64> + From<u32>>(pie: &mut Pie<()>, k: u32) -> (Option<i64>, Option<i64>, Option<i64>) {
+    let key = K::from(k);
+    let s1 = MapEqualsChecker.stamp(&key, pie.resource_state_mut::<K>()).unwrap();
+    let s2 = { let mut rd = key.read(pie.resource_state_mut::<K>()).unwrap(); MapEqualsChecker.stamp_reader(&key, &mut rd).unwrap() };
+    let s3 = { let w = key.write(pie.resource_state_mut::<K>()).unwrap(); MapEqualsChecker.stamp_writer(&key, w).unwrap() };
+    (s1, s2, s3)
+  }
+  fn check<K: MapKey<Value = i64> + From<u32>>(pie: &mut Pie<()>, k: u32, st: &Option<i64>) -> bool {
+    let key = K::from(k);
+    let r = MapEqualsChecker.check(&key, pie.resource_state_mut::<K>(), st).unwrap().is_some();
+    r
+  }
+  macro_rules! by_key { ($kt:expr, $f:ident, $($a:expr),*) => { match $kt { 1 => $f::<K1>($($a),*), 2 => $f::<K2>($($a),*), _ => $f::<K3>($($a),*) } } }
+
+  pub fn run(path: &str) {
+    let out = std::io::stdout();
+    let mut out = std::io::BufWriter::new(out.lock());
+    for_each_case(path, |idx, toks| {
+      writeln!(out, "C {}", idx).unwrap();
+      let mut pie: Pie<()> = Pie::default();
+      let mut slots: HashMap<u32, (u32, u32, Option<i64>)> = HashMap::new();
+      let mut t = Toks { t: &toks, i: 0 };
+      while t.peek().is_some() {
+        match t.next() {
+          "g" => { let r: u32 = t.num(); let s: u32 = t.num(); writeln!(out, "g {}", by_res!(r, s, get, &pie)).unwrap(); }
+          "s" => { let r: u32 = t.num(); let s: u32 = t.num(); let v: i64 = t.num(); by_res!(r, s, set, &mut pie, v); writeln!(out, "u").unwrap(); }
+          "d" => { let r: u32 = t.num(); let s: u32 = t.num(); writeln!(out, "d {}", by_res!(r, s, default, &mut pie)).unwrap(); }
+          "r" => { let kt: u32 = t.num(); let k: u32 = t.num(); writeln!(out, "r {}", o(by_key!(kt, read, &mut pie, k))).unwrap(); }
+          "w" => { let kt: u32 = t.num(); let k: u32 = t.num(); let v: i64 = t.num(); by_key!(kt, insert, &mut pie, k, v); writeln!(out, "u").unwrap(); }
+          "x" => { let kt: u32 = t.num(); let k: u32 = t.num(); by_key!(kt, remove, &mut pie, k); writeln!(out, "u").unwrap(); }
+          "i" => { let kt: u32 = t.num(); let k: u32 = t.num(); let v: i64 = t.num(); by_key!(kt, direct, &mut pie, k, v); writeln!(out, "u").unwrap(); }
+          "t" => { let slot: u32 = t.num(); let kt: u32 = t.num(); let k: u32 = t.num();
+                   let (s1, s2, s3) = by_key!(kt, stamps, &mut pie, k);
+                   slots.insert(slot, (kt, k, s1));
+                   writeln!(out, "t {} {} {}", o(s1), o(s2), o(s3)).unwrap(); }
+          "c" => { let slot: u32 = t.num();
+                   match slots.get(&slot).cloned() {
+                     None => writeln!(out, "c none").unwrap(),
+                     Some((kt, k, st)) => { let inc = by_key!(kt, check, &mut pie, k, &st); writeln!(out, "c {}", if inc { 1 } else { 0 }).unwrap(); }
+                   } }
+          x => panic!("bad map op {}", x),
+        }
+      }
+    });
+  }
+}
+
+// ------------------------------------------------------------------ key identity probe (C15)
+mod keyprobe {
+  use std::cell::RefCell;
+  use std::fmt::{Debug, Formatter};
+  use std::hash::{Hash, Hasher};
+  use std::io::Write as _;
+  use std::panic::{catch_unwind, AssertUnwindSafe};
+  use std::rc::Rc;
+  use std::sync::Arc;
+  use pie::resource::map::{GetGlobalMap, MapEqualsChecker, MapKey};
+  use pie::trait_object::KeyObj;
+  use pie::{Context, Pie, Task};
+  use verif_harness::dsl::{mix, stamp_exact, Toks};
+  use verif_harness::{for_each_case, panic_message};
+
+  thread_local! { static EXECS: RefCell<u32> = RefCell::new(0); }
+  fn bump() { EXECS.with(|e| *e.borrow_mut() += 1); }
+
+  // task families with identical fields, Hash and Debug text
+  macro_rules! fam { ($n:ident, $code:expr) => {
+    #[derive(Clone, PartialEq, Eq)] pub struct $n(pub u32);
+    impl Hash for $n { fn hash<H: Hasher>(&self, h: &mut H) { self.0.hash(h) } }
+    impl Debug for $n { fn fmt(&self, f: &mut Formatter<'_>) -> std::fmt::Result { write!(f, "K({})", self.0) } }
+    impl Task for $n { type Output = i64; fn execute<C: Context>(&self, _c: &mut C) -> i64 { bump(); $code * 100 + self.0 as i64 } }
+  } }
+  fam!(A, 0); fam!(B, 1); fam!(C, 2);
+
+  // resource families, two of them zero sized
+  macro_rules! rfam { ($n:ident) => {
+    #[derive(Clone, PartialEq, Eq)] pub struct $n(pub u32);
+    impl Hash for $n { fn hash<H: Hasher>(&self, h: &mut H) { self.0.hash(h) } }
+    impl Debug for $n { fn fmt(&self, f: &mut Formatter<'_>) -> std::fmt::Result { write!(f, "K({})", self.0) } }
+    impl MapKey for $n { type Value = i64; }
+  } }
+  rfam!(RA); rfam!(RB);
+  macro_rules! ufam { ($n:ident) => {
+    #[derive(Clone, PartialEq, Eq, Hash)] pub struct $n;
+    impl Debug for $n { fn fmt(&self, f: &mut Formatter<'_>) -> std::fmt::Result { write!(f, "K(0)") } }
+    impl MapKey for $n { type Value = i64; }
+  } }
+  ufam!(U1); ufam!(U2);
+
+  #[derive(Clone, PartialEq, Eq, Hash)] pub struct Rd<K>(pub K);
+  impl<K> Debug for Rd<K> { fn fmt(&self, f: &mut Formatter<'_>) -> std::fmt::Result { write!(f, "Rd") } }
+  impl<K: MapKey<Value = i64>> Task for Rd<K> {
+    type Output = i64;
+    fn execute<C: Context>(&self, c: &mut C) -> i64 { bump(); let v = c.read(&self.0, MapEqualsChecker).unwrap().copied(); mix(0, stamp_exact(v)) }
+  }
+
+  fn req(pie: &mut Pie<()>, fam: u32, v: u32) -> i64 {
+    let mut s = pie.new_session();
+    match fam {
+      0 => s.require(&A(v)), 1 => s.require(&B(v)), 2 => s.require(&C(v)),
+      3 => s.require(&Box::new(A(v))), 4 => s.require(&Rc::new(A(v))), 5 => s.require(&Arc::new(A(v))),
+      _ => s.require(&Box::new(B(v))),
+    }
+  }
+  fn reqr(pie: &mut Pie<()>, fam: u32, v: u32) -> i64 {
+    let mut s = pie.new_session();
+    match fam { 0 => s.require(&Rd(RA(v))), 1 => s.require(&Rd(RB(v))), 2 => s.require(&Rd(U1)), _ => s.require(&Rd(U2)) }
+  }
+  fn edit(pie: &mut Pie<()>, fam: u32, v: u32, val: Option<i64>) {
+    macro_rules! e { ($k:expr, $t:ty) => { { let m = pie.resource_state_mut::<$t>().get_global_map_mut(); match val { Some(x) => { m.insert($k, x); } None => { m.remove(&$k); } } } } }
+    match fam { 0 => e!(RA(v), RA), 1 => e!(RB(v), RB), 2 => e!(U1, U1), _ => e!(U2, U2) }
+  }
+  fn bottom_up(pie: &mut Pie<()>, fam: u32, v: u32) {
+    // the changed resource arrives as a boxed trait object, as a file watcher would hand it over
+    let boxed: Box<dyn KeyObj> = match fam { 0 => Box::new(RA(v)), 1 => Box::new(RB(v)), 2 => Box::new(U1), _ => Box::new(U2) };
+    let mut s = pie.new_session();
+    let mut bu = s.create_bottom_up_build();
+    bu.schedule_tasks_affected_by(boxed.as_ref());
+    bu.update_affected_tasks();
+  }
+
+  pub fn run(path: &str) {
+    let out = std::io::stdout();
+    let mut out = std::io::BufWriter::new(out.lock());
+    for_each_case(path, |idx, toks| {
+      writeln!(out, "C {}", idx).unwrap();
+      let mut pie: Pie<()> = Pie::default();
+      let mut t = Toks { t: &toks, i: 0 };
+      while t.peek().is_some() {
+        EXECS.with(|e| *e.borrow_mut() = 0);
+        let op = t.next().to_string();
+        let fam: u32 = t.num(); let v: u32 = t.num();
+        let r = catch_unwind(AssertUnwindSafe(|| match op.as_str() {
+          "q" => format!("{}", req(&mut pie, fam, v)),
+          "R" => format!("{}", reqr(&mut pie, fam, v)),
+          "E" => { let val: i64 = t.num(); edit(&mut pie, fam, v, Some(val)); "u".into() }
+          "D" => { edit(&mut pie, fam, v, None); "u".into() }
+          "b" => { bottom_up(&mut pie, fam, v); "done".into() }
+          x => panic!("bad key op {}", x),
+        }));
+        let n = EXECS.with(|e| *e.borrow());
+        match r { Ok(s) => writeln!(out, "o {} x{}", s, n).unwrap(), Err(e) => writeln!(out, "o abort:{} x{}", panic_message(&e).chars().take(30).collect::<String>().replace(' ', "_"), n).unwrap() }
+      }
+    });
   }
 }
